@@ -30,14 +30,16 @@ func init() {
 	register("C13/loss_grad", checkC13)
 }
 
-func computeLoss(kind string, p, t tensor.Tensor) (tensor.Tensor, error) {
+// newLoss constructs one loss object; histories keep using the same object for every step,
+// as a training loop does (state leaking from one Compute into the next must show).
+func newLoss(kind string) func(p, t tensor.Tensor) (tensor.Tensor, error) {
 	switch kind {
 	case "mse":
-		return losses.NewMSE().Compute(p, t)
+		return losses.NewMSE().Compute
 	case "bce":
-		return losses.NewBCE().Compute(p, t)
+		return losses.NewBCE().Compute
 	}
-	return losses.NewCE().Compute(p, t)
+	return losses.NewCE().Compute
 }
 
 func lossShape(t *rapid.T, kind string) []int {
@@ -98,10 +100,11 @@ func checkC12(c LossCase) *Failure {
 	// scale: the same formula on term magnitudes (|log| of clipped values are <= 27.7)
 	scale := math.Abs(want.V) + 1e-12
 	vals := []float64{}
+	compute := newLoss(c.Kind)
 	for _, tr := range [][2]bool{{pl.Tracked, c.TTr}, {false, false}, {true, true}} {
 		p := lib.MustNew(pl.Shape, pl.Vals, tr[0])
 		tg := lib.MustNew(pl.Shape, c.T, tr[1])
-		l, err := computeLoss(c.Kind, p, tg)
+		l, err := compute(p, tg)
 		if err != nil {
 			return failf("%s.Compute rejected inputs of shape %v: %v", c.Kind, pl.Shape, err)
 		}
@@ -260,14 +263,28 @@ func checkC13(c LossCase) *Failure {
 		evid.Discard("prediction_at_clipping_bound")
 		return nil
 	}
+	compute := newLoss(c.Kind)
+	clippedSeen := false
+	// the same loss object serves two independent rounds (fresh tensors each), as in a loop
+	for round := 0; round < 2; round++ {
+		if f := c13Round(c, compute, round, vals, slot, reach, L, p, &clippedSeen); f != nil {
+			return f
+		}
+	}
+	return c13Classify(c, tr, pid, clippedSeen)
+}
+
+func c13Round(c LossCase, compute func(p, t tensor.Tensor) (tensor.Tensor, error), round int, vals []ref.T, slot []int, reach []bool, L ref.D, p ref.T, clippedSeenOut *bool) *Failure {
+	total := len(vals)
+	pid := total - 1
 	lv, err := prog.RunLib(c.Up)
 	if err != nil {
 		return failf("upstream program rejected: %v", err)
 	}
 	tg := lib.MustNew(p.Shape, c.T, false)
-	l, err := computeLoss(c.Kind, lv[pid], tg)
+	l, err := compute(lv[pid], tg)
 	if err != nil {
-		return failf("%s.Compute rejected inputs of shape %v: %v", c.Kind, p.Shape, err)
+		return failf("round %d: %s.Compute rejected inputs of shape %v: %v", round, c.Kind, p.Shape, err)
 	}
 	if err := tensor.BackPropagate(l); err != nil {
 		return failf("BackPropagate(%s loss) returned error: %v", c.Kind, err)
@@ -333,6 +350,11 @@ func checkC13(c LossCase) *Failure {
 			}
 		}
 	}
+	*clippedSeenOut = *clippedSeenOut || clippedSeen
+	return nil
+}
+
+func c13Classify(c LossCase, tr []bool, pid int, clippedSeen bool) *Failure {
 	evid.Eval()
 	evid.Class("C13.kind=" + c.Kind)
 	nt := false
